@@ -3,21 +3,29 @@
 (*   {"op":"make","f":factory,"a":[args],"r":id,"o":observation}   {"op":"set","n":id,"l":link,"v":value,"o":..}   *)
 (*   {"op":"observe","n":id,"o":..}   an earlier node re-read later (it may have changed only by `set` on itself)  *)
 EXTENDS IprMake, Json, IOUtils
-VARIABLE l
-tvars == <<made, mklast, l>>
+VARIABLES l, prev       \* prev: `made` as it was when stability was last reported
+tvars == <<made, mklast, l, prev>>
 T == ndJsonDeserialize(IOEnv.TRACE)
 Ev == T[l]
-TInit == MkInit /\ l = 1
+TInit == MkInit /\ l = 1 /\ prev = <<>>
 \* (compared accessor by accessor: an empty JSON object and an empty TLA+ function are not comparable values in TLC)
 Same(o, id, md) == LET e == Expected(md, id) IN
                    /\ o.cat = e.cat /\ o.type = e.type
                    /\ DOMAIN o.acc = DOMAIN e.acc
                    /\ \A x \in DOMAIN e.acc : o.acc[x] = e.acc[x]
-TMake == Ev.op = "make" /\ Make(Ev.f, Ev.a) /\ mklast'.r = Ev.r /\ Same(Ev.o, Ev.r, made')
-TSet == Ev.op = "set" /\ SetLink(Ev.n, Ev.l, Ev.v) /\ Same(Ev.o, Ev.n, made')
-TObserve == Ev.op = "observe" /\ IsMade(Ev.n) /\ Same(Ev.o, Ev.n, made) /\ UNCHANGED mkvars
-TReset == Ev.op = "reset" /\ made' = <<>> /\ mklast' = [op |-> "init", f |-> "", a |-> <<>>, n |-> 0, l |-> "", v |-> 0, r |-> 0]
-TNext == l <= Len(T) /\ (TMake \/ TSet \/ TObserve \/ TReset) /\ l' = l + 1
+TMake == Ev.op = "make" /\ Make(Ev.f, Ev.a) /\ mklast'.r = Ev.r /\ Same(Ev.o, Ev.r, made') /\ UNCHANGED prev
+TSet == Ev.op = "set" /\ SetLink(Ev.n, Ev.l, Ev.v) /\ Same(Ev.o, Ev.n, made') /\ UNCHANGED prev
+TObserve == Ev.op = "observe" /\ IsMade(Ev.n) /\ Same(Ev.o, Ev.n, made) /\ UNCHANGED <<made, mklast, prev>>
+\* C05: the nodes that read differently than at the previous report are exactly those whose expected observation
+\* changed, i.e. those the client changed explicitly (or that borrow from one it changed); nothing else ever changes
+ChangedSince(old, new) == {IdOf(k) : k \in {j \in 1..Len(old) : Expected(old, IdOf(j)) # Expected(new, IdOf(j))}}
+TStable == /\ Ev.op = "stable"
+           /\ {Ev.a[i] : i \in 1..Len(Ev.a)} = ChangedSince(prev, made)
+           /\ prev' = made
+           /\ UNCHANGED <<made, mklast>>
+TReset == Ev.op = "reset" /\ made' = <<>> /\ prev' = <<>>
+          /\ mklast' = [op |-> "init", f |-> "", a |-> <<>>, n |-> 0, l |-> "", v |-> 0, r |-> 0]
+TNext == l <= Len(T) /\ (TMake \/ TSet \/ TObserve \/ TStable \/ TReset) /\ l' = l + 1
 TSpec == TInit /\ [][TNext]_tvars
 Accepted == TLCGet("stats").diameter - 1 = Len(T)
 =============================================================================
